@@ -1283,7 +1283,18 @@ pub fn main(args: &util::Args) {
     let total = args.n.or(short_n).unwrap_or(if args.tier == "thorough" { 40000 } else { 4000 });
     let mut out = String::new();
     let mut cov = Cov::default();
+    // `--skip i,j,…`: script indices not to run (the caller found that they kill the process: a stack overflow inside
+    // the real `unify`/`norm` cannot be caught in-process).  Before a script runs, its id and text go to
+    // `<out>/unify.progress`, so that the caller can name the script that was running when the process died.
+    let skip: Vec<usize> = args.rest.iter().position(|x| x == "--skip").and_then(|i| args.rest.get(i + 1))
+        .map(|s| s.split(',').filter_map(|x| x.parse().ok()).collect()).unwrap_or_default();
+    let _ = std::fs::create_dir_all(&args.out);
+    let progress = args.out.join("unify.progress");
     for i in 0..total {
+        if skip.contains(&i) {
+            cov.inc("scripts_skipped_on_request");
+            continue;
+        }
         let mut attempt = 0u64;
         loop {
             let mut root = Rng::new(args.seed);
@@ -1302,6 +1313,8 @@ pub fn main(args: &util::Args) {
             };
             assert!(g.steps.len() <= MAX_STEPS && g.nv <= MAX_VARS, "generator exceeded its budget");
             let mut obs = Obs::default();
+            let _ = std::fs::write(&progress, format!("{}\tuni:{}:{}:{}\t{}\n", i, fam, args.seed, i,
+                tagged("script", g.steps.iter().map(step_s).collect()).to_text()));
             match run_script(&g.steps, &mut obs) {
                 Run::Oversize => {
                     cov.inc("discarded_oversize");
@@ -1366,4 +1379,5 @@ pub fn main(args: &util::Args) {
     out.push_str(&format!("#COV\t{}\n", covrow.join(";")));
     let _ = std::fs::create_dir_all(&args.out);
     std::fs::write(args.out.join("unify.cases.tsv"), out).unwrap();
+    let _ = std::fs::remove_file(&progress);
 }
